@@ -1,3 +1,53 @@
-From Coq Require Import List String.
-Example C18_placeholder : True. Proof. exact I. Qed.
-Print Assumptions C18_placeholder.
+(** C18 — get_last, get_next and get_new implement a gap-free version workflow.  Property theorems only.
+    Proved about the model of the demo NextGetter and the Sid methods: the successor of "v"+ddd is requested as exactly
+    "v"+(n+1) formatted with 3 digits through get_with on the same Sid (all other fields untouched), the first version is
+    v001, formatted versions parse back, are pairwise distinct and ordered like the numbers (so ">" picks the numerically
+    last), and a number needing 4 digits cannot be a version.  get_last / get_new over a tree go through FindInAll: their
+    agreement with the specification is checked on the implementation over generated trees and create(get_new) chains
+    and by correspondence with the file-system model: NOT theorems (partial). *)
+From Coq Require Import List String Ascii Bool Arith Permutation Sorted.
+From Spil Require Import Base.Str Base.Dict Base.Outcome Regex.Re Conf.Conf Conf.Routing Conf.WF Sid.Sid
+  Search.Unfold Search.FindList Search.Finders Search.FindListProofs Search.FindersProofs FS.Fs Data.Data Data.VersionProofs.
+From SpilGen Require Hamlet.
+Import ListNotations.
+Local Open Scope string_scope.
+
+Theorem C18_next_concrete : forall Ld Rt F x0 x n,
+  sid_factory Ld (FromSid x0) = Ok x -> sid_get x "version" = Some ("v" ++ fmt_03d n) ->
+  next_version Ld Rt F x0 = request_version Ld x (S n).
+Proof. exact next_version_concrete. Qed.
+Print Assumptions C18_next_concrete.
+
+Theorem C18_next_first : forall Ld Rt F x0 x,
+  sid_factory Ld (FromSid x0) = Ok x -> sid_get x "version" = None ->
+  next_version Ld Rt F x0 = request_version Ld x 1 /\ "v" ++ fmt_03d 1 = "v001".
+Proof. exact next_version_first. Qed.
+Print Assumptions C18_next_first.
+
+Theorem C18_versions_ordered : forall n m, n < m -> m < 1000 -> str_ltb (vname n) (vname m) = true.
+Proof. exact vname_monotone. Qed.
+Print Assumptions C18_versions_ordered.
+
+Theorem C18_versions_distinct : forall n m, n <> m -> vname n <> vname m.
+Proof. exact vname_distinct. Qed.
+Print Assumptions C18_versions_distinct.
+
+Theorem C18_parse_format : forall n, py_int (fmt_03d n) = Some n.
+Proof. exact py_int_fmt. Qed.
+Print Assumptions C18_parse_format.
+
+Theorem C18_three_digits : forall n, n < 1000 -> String.length (fmt_03d n) = 3.
+Proof. exact fmt_03d_length. Qed.
+Print Assumptions C18_three_digits.
+
+(* beyond the last representable version the result is the empty Sid: instance on today's configuration *)
+Example C18_beyond_last :
+  match sid_factory Hamlet.the_loaded (FromString "hamlet/a/char/x/model/v999") with
+  | Ok x => match next_version Hamlet.the_loaded (mkRouting [] [] true) [] x with
+            | Ok y => negb (sid_bool y)
+            | Raise _ => false
+            end
+  | Raise _ => false
+  end = true.
+Proof. vm_compute. reflexivity. Qed.
+Print Assumptions C18_beyond_last.
